@@ -402,4 +402,16 @@ for L, names in long_native.items():
 short = ["a", "b", "em", "div", "span", "video", "button", "section", "textarea"]
 w("tags-long/short-native.jsx", "\n".join(f"const t{i} = <{n}>{{k{i}}}</{n}>;" for i, n in enumerate(short)))
 w("tags-long/short-madeup.jsx", "\n".join(f"const t{i} = <{made_up(n)}>{{k{i}}}</{made_up(n)}>;" for i, n in enumerate(short)))
+
+# ---- G. list-valued option, adversarial values: pattern lists that differ only in where the list is split (their
+# elements concatenate to the same text), over one source; plus an empty-string pattern and a duplicate. Anything that
+# identifies an option value by less than the value itself (a joined string, a length, a hash of the concatenation)
+# confuses these.
+split_src = "\n".join(f"const s{i} = <{t} a={{v{i}}}>{{k{i}}}</{t}>;" for i, t in enumerate(["x-widget", "x-button", "my-widget", "x-w", "widget", "xwidget", "x-", "idget"]))
+splits = {
+    "a": '["^x-","widget$"]', "b": '["^x-w","idget$"]', "c": '["^x-widget$"]', "d": '["^x","-widget$"]',
+    "e": '["^x-widget$",""]', "f": '["^x-","widget$","^x-"]', "g": '["widget$","^x-"]', "h": '["^x-widget$","^$"]',
+}
+for n, pats in splits.items():
+    w(f"patterns-split/split-{n}.jsx", split_src, '{"optimize":true,"customElementPatterns":' + pats + '}')
 print("generated under", os.path.normpath(root))
